@@ -961,7 +961,7 @@ func (pc *Parent) replay(path string) int {
 		Seed      int64     `json:"seed"`
 		Violation Violation `json:"violation"`
 	}
-	if err := json.Unmarshal(b, &rf); err != nil || rf.Violation.Case == nil {
+	if err := json.Unmarshal(b, &rf); err != nil || (rf.Violation.Case == nil && pc.P.Custom == nil) {
 		fmt.Fprintln(os.Stderr, "replay file has no case to re-run")
 		return 2
 	}
@@ -970,6 +970,13 @@ func (pc *Parent) replay(path string) int {
 	}
 	pc.Seed = rf.Seed
 	pc.isReplay = true
+	if pc.P.Custom != nil {
+		// histories and schedules are functions of (seed, tier): the witness is replayed by running the same rounds again
+		// (a schedule-dependent witness may need more than one replay; the race report and descriptor are in the file)
+		fmt.Printf("replaying %s %s seed=%d (violation %s)\n", pc.P.ID, pc.Tier, pc.Seed, rf.Violation.Key)
+		pc.P.Custom(pc)
+		return pc.finish()
+	}
 	fmt.Printf("replaying case %s of %s (violation %s)\n", rf.Violation.Case.String(), pc.P.ID, rf.Violation.Key)
 	pc.runPool([]Case{*rf.Violation.Case})
 	return pc.finish()
